@@ -64,6 +64,7 @@ type ctlWorld struct {
 	spe    uint64
 	nVals  uint64
 	start  uint64
+	f      faults
 	sched  *ctlSched
 	svc    *controller.Service
 	onHead consensusclient.EventHandlerFunc
@@ -215,7 +216,19 @@ func (n ctlNode) attesterDuty(epoch uint64, v uint64) *apiv1.AttesterDuty {
 	}
 }
 
+// nodeFault: the controller calls its beacon node from contexts of its own, so
+// the slot of the repetition and the request identify the call.
+func (n ctlNode) nodeFault(kind string, x uint64) error {
+	if n.w.f.hit(kind, n.w.clock.slot.Load()<<16^x) {
+		return strErr("scripted beacon node failure: " + kind)
+	}
+	return nil
+}
+
 func (n ctlNode) AttesterDuties(_ context.Context, opts *api.AttesterDutiesOpts) (*api.Response[[]*apiv1.AttesterDuty], error) {
+	if err := n.nodeFault("attduties-err", uint64(opts.Epoch)<<4^uint64(len(opts.Indices))); err != nil {
+		return nil, err
+	}
 	var res []*apiv1.AttesterDuty
 	for _, v := range opts.Indices {
 		res = append(res, n.attesterDuty(uint64(opts.Epoch), uint64(v)))
@@ -224,6 +237,9 @@ func (n ctlNode) AttesterDuties(_ context.Context, opts *api.AttesterDutiesOpts)
 }
 
 func (n ctlNode) ProposerDuties(_ context.Context, opts *api.ProposerDutiesOpts) (*api.Response[[]*apiv1.ProposerDuty], error) {
+	if err := n.nodeFault("propduties-err", uint64(opts.Epoch)); err != nil {
+		return nil, err
+	}
 	var res []*apiv1.ProposerDuty
 	for i := uint64(0); i < n.w.spe; i += 2 {
 		v := (uint64(opts.Epoch) + i) % n.w.nVals
@@ -237,6 +253,9 @@ func (n ctlNode) ProposerDuties(_ context.Context, opts *api.ProposerDutiesOpts)
 }
 
 func (n ctlNode) SyncCommitteeDuties(_ context.Context, opts *api.SyncCommitteeDutiesOpts) (*api.Response[[]*apiv1.SyncCommitteeDuty], error) {
+	if err := n.nodeFault("syncduties-err", uint64(opts.Epoch)); err != nil {
+		return nil, err
+	}
 	var res []*apiv1.SyncCommitteeDuty
 	for _, v := range opts.Indices {
 		res = append(res, &apiv1.SyncCommitteeDuty{PubKey: pubKeyOf(uint64(v)), ValidatorIndex: v,
@@ -246,6 +265,9 @@ func (n ctlNode) SyncCommitteeDuties(_ context.Context, opts *api.SyncCommitteeD
 }
 
 func (n ctlNode) BeaconBlockHeader(context.Context, *api.BeaconBlockHeaderOpts) (*api.Response[*apiv1.BeaconBlockHeader], error) {
+	if err := n.nodeFault("header-err", 0); err != nil {
+		return nil, err
+	}
 	slot := n.w.clock.CurrentSlot()
 	if slot > 0 {
 		slot--
@@ -257,6 +279,9 @@ func (n ctlNode) BeaconBlockHeader(context.Context, *api.BeaconBlockHeaderOpts) 
 }
 
 func (n ctlNode) SignedBeaconBlock(context.Context, *api.SignedBeaconBlockOpts) (*api.Response[*spec.VersionedSignedBeaconBlock], error) {
+	if err := n.nodeFault("headblock-err", 0); err != nil {
+		return nil, err
+	}
 	bits := bitfield.NewBitvector512()
 	for i := uint64(0); i < 16; i += 2 {
 		bits.SetBitAt(i, true)
@@ -287,6 +312,9 @@ func (ctlAttAggregator) AggregatorsAndSignatures(_ context.Context, accounts []e
 type ctlCommitteeSubscriber struct{ n ctlNode }
 
 func (s ctlCommitteeSubscriber) Subscribe(_ context.Context, epoch phase0.Epoch, accounts map[phase0.ValidatorIndex]e2wtypes.Account) (map[phase0.Slot]map[phase0.CommitteeIndex]*beaconcommitteesubscriber.Subscription, error) {
+	if err := s.n.nodeFault("subscribe-err", uint64(epoch)); err != nil {
+		return nil, err
+	}
 	res := map[phase0.Slot]map[phase0.CommitteeIndex]*beaconcommitteesubscriber.Subscription{}
 	for v := range accounts {
 		d := s.n.attesterDuty(uint64(epoch), uint64(v))
@@ -319,7 +347,9 @@ func buildController(sc *Scenario) (world, error) {
 	}
 	w.start = 40*w.spe + sc.P["start"]%w.spe
 	w.clock = newClock(w.spe, w.start)
+	w.f = newFaults(sc.P)
 	accts := newFixedAccounts(int(w.nVals))
+	accts.f = w.f
 	node := ctlNode{w}
 	att, err := standardattester.New(context.Background(),
 		standardattester.WithLogLevel(zerolog.Disabled),
@@ -327,23 +357,21 @@ func buildController(sc *Scenario) (world, error) {
 		standardattester.WithMonitor(nullmetrics.New()),
 		standardattester.WithChainTime(w.clock),
 		standardattester.WithSpecProvider(newSpec(w.spe)),
-		standardattester.WithAttestationDataProvider(attData{w.spe}),
-		standardattester.WithAttestationsSubmitter(attSubmitter{}),
+		standardattester.WithAttestationDataProvider(attData{w.spe, w.f}),
+		standardattester.WithAttestationsSubmitter(attSubmitter{w.f}),
 		standardattester.WithValidatingAccountsProvider(accts),
-		standardattester.WithBeaconAttestationsSigner(attSigner{}),
+		standardattester.WithBeaconAttestationsSigner(attSigner{w.f}),
 	)
 	if err != nil {
 		return nil, err
 	}
-	msgr, agg, err := buildSCMServices(w.clock, accts, w.spe)
+	msgr, agg, err := buildSCMServices(w.clock, accts, w.spe, w.f)
 	if err != nil {
 		return nil, err
 	}
 	// sync committee records of earlier slots, so that the clean-up of old records has something to do
 	for i := uint64(0); i < sc.P["pre"]; i++ {
-		if _, err := msgr.Message(context.Background(), newSyncDuty(accts, w.nVals, w.start-sc.P["pre"]+i)); err != nil {
-			return nil, err
-		}
+		_, _ = msgr.Message(context.Background(), newSyncDuty(accts, w.nVals, w.start-sc.P["pre"]+i, w.f))
 	}
 	w.sched = &ctlSched{jobs: map[string]*ctlJob{}}
 	evp := newEventsCapture()
@@ -438,7 +466,7 @@ func depRoot(tag byte, epoch uint64, variant uint64) phase0.Root {
 	return r
 }
 
-func (w *ctlWorld) run(rep int, ri int, _ *Role, op *Op) {
+func (w *ctlWorld) run(rep int, ri int, _ *Role, op *Op, call uint64) {
 	ctx := context.Background()
 	cur := w.start + uint64(rep)
 	epoch := cur / w.spe
@@ -556,7 +584,7 @@ func init() {
 				gen: rep(1, 4, func(t *rapid.T) Op { return Op{K: "pending", B: rapid.Uint64Range(0, 2).Draw(t, "ahead")} })},
 		},
 		params: func(t *rapid.T) map[string]uint64 {
-			return map[string]uint64{
+			p := map[string]uint64{
 				"vals":          rapid.Uint64Range(1, 6).Draw(t, "vals"),
 				"start":         rapid.SampledFrom([]uint64{0, 3, 5, 6, 7}).Draw(t, "start"),
 				"proposalDelay": rapid.SampledFrom([]uint64{0, 2}).Draw(t, "proposalDelay"),
@@ -564,6 +592,8 @@ func init() {
 				"fastSync":      rapid.Uint64Range(0, 1).Draw(t, "fastSync"),
 				"pre":           rapid.SampledFrom([]uint64{0, 98, 110}).Draw(t, "pre"),
 			}
+			genFaults(t, p)
+			return p
 		},
 		build: buildController,
 	})
